@@ -56,3 +56,4 @@ def register(w):
         inline=[B + 'registry_lookup'] + [B + h for h in helpers],
         assumes=['no override is registered for the argument types (registries are empty by default)',
                  'the result object of the builtin is returned as it is (same laziness)']))
+
